@@ -786,12 +786,15 @@ func (n *AlertNode) NewGroup(group edge.GroupInfo, first edge.PointMeta) (edge.R
 
 func (n *AlertNode) restoreEventState(id string, t time.Time, tags models.Tags) *alertState {
 	state := n.newAlertState(tags)
-	currentLevel, triggered := n.restoreEvent(id)
+	currentLevel, triggered, duration := n.restoreEvent(id)
 	if currentLevel != alert.OK {
 		// Add initial event
 		state.addEvent(t, currentLevel)
 		// Record triggered time
 		state.triggered(triggered)
+		// The restored event was already duration into its alert state:
+		// keep measuring from when the alert left OK, not from the restored event.
+		state.firstTriggered = triggered.Add(-duration)
 	}
 	return state
 }
@@ -830,7 +833,7 @@ func copyResetExpressions(exprs []stateful.Expression) []stateful.Expression {
 	return copies
 }
 
-func (n *AlertNode) restoreEvent(id string) (alert.Level, time.Time) {
+func (n *AlertNode) restoreEvent(id string) (alert.Level, time.Time, time.Duration) {
 	var topicState, anonTopicState alert.EventState
 	var anonFound, topicFound bool
 	// Check for previous state on anonTopic
@@ -867,9 +870,9 @@ func (n *AlertNode) restoreEvent(id string) (alert.Level, time.Time) {
 		} // else nothing was found, nothing to do
 	}
 	if anonFound {
-		return anonTopicState.Level, anonTopicState.Time
+		return anonTopicState.Level, anonTopicState.Time, anonTopicState.Duration
 	}
-	return topicState.Level, topicState.Time
+	return topicState.Level, topicState.Time, topicState.Duration
 }
 
 func deleteAlertHook(anonTopic string) deleteHook {
